@@ -230,6 +230,8 @@ impl TxnCoordinator {
             DeliveryState::Rejected(Rejected { error: Some(TxnRejection { condition: result->Err_0->TransactionError_0 }) }))),                                // [C18.coordinator.rejection]
         final(self).inner.disposed@.len() <= old(self).inner.disposed@.len() + 1,
         final(self).inner.disposed@.len() == old(self).inner.disposed@.len() + 1 ==> final(self).inner.disposed@.last().0 == delivery_info,       // [C18.coordinator.answer-names-the-request] whatever the answer is, it is the answer to the delivery it was asked for
+        final(self).inner.disposed@.len() == old(self).inner.disposed@.len() + 1 ==> r is Continue,       // [C18.coordinator.keeps-serving-after-an-answer] once the answer to a declare or discharge has been written the coordinator goes on serving the control link -- the id it has just handed out can still be discharged
+        r is Continue ==> final(self).inner.disposed@.len() == old(self).inner.disposed@.len() + 1,       // [C18.coordinator.no-answer-no-service] it only goes on when the request HAS been answered: a session that is gone, or a link that no longer takes the disposition, ends it (its Drop then rolls back what was declared)
 //@@ end
 
 //@@ fn file=fe2o3-amqp/src/transaction/coordinator.rs impl=`impl TxnCoordinator` name=on_delivery
